@@ -22,6 +22,8 @@ pub enum PAct {
     Pins(u8, u8),
     /// the harness moves the state count (time passes without port activity)
     Clock(u64),
+    /// `count` alternating DR writes (a5 / 5a) to port `0`, the state count advancing by `gap` between them
+    Storm(u8, u32, u32),
 }
 
 impl PAct {
@@ -31,12 +33,18 @@ impl PAct {
             PAct::Dr(p, v) => format!("P{:X}DR={:02x}", p, v),
             PAct::Pins(p, v) => format!("P{:X}pins={:02x}", p, v),
             PAct::Clock(t) => format!("clock={}", t),
+            PAct::Storm(p, gap, n) => format!("P{:X}storm={}x{}", p, gap, n),
         }
     }
     fn parse(s: &str) -> Option<PAct> {
         let (l, r) = s.split_once('=')?;
         if l == "clock" {
             return r.parse().ok().map(PAct::Clock);
+        }
+        if l.len() > 2 && &l[2..] == "storm" {
+            let p = u8::from_str_radix(&l[1..2], 16).ok()?;
+            let (g, n) = r.split_once('x')?;
+            return Some(PAct::Storm(p, g.parse().ok()?, n.parse().ok()?));
         }
         let v = u8::from_str_radix(r, 16).ok()?;
         let p = u8::from_str_radix(&l[1..2], 16).ok()?;
@@ -113,6 +121,15 @@ impl PortSys {
             self.clock = t;
             return Ok(());
         }
+        if let PAct::Storm(p, gap, n) = *a {
+            for i in 0..n {
+                // apply_inner adds 7 itself
+                self.clock = self.clock.wrapping_add(gap as u64).wrapping_sub(7);
+                let w = PAct::Dr(p, if i % 2 == 0 { 0xa5 } else { 0x5a });
+                self.apply_inner(&w, watch).map_err(|m| format!("write {} of the storm: {}", i, m))?;
+            }
+            return Ok(());
+        }
         self.clock += 7;
         self.cpu.bus.cpu_state_sum = self.clock as usize;
         let before: Vec<(u8, u8, u8)> = watch.iter().map(|&p| self.impl_bytes(p)).collect();
@@ -132,7 +149,7 @@ impl PortSys {
                 self.refs[p as usize].pins = v;
                 p
             }
-            PAct::Clock(_) => unreachable!(),
+            PAct::Clock(_) | PAct::Storm(..) => unreachable!(),
         };
         // messages emitted by this action
         let msgs: Vec<String> = self.rx.try_iter().collect();
@@ -406,6 +423,30 @@ fn c16_units(tier: Tier) -> Vec<Unit> {
                             report(ctx, &path, format!("{} (state count about 2^{})", m, k));
                             break;
                         }
+                    }
+                }
+            }
+        },
+    ));
+    // ---- long runs of output changes (a tight toggle loop in the guest): every single change must be announced
+    units.push(Unit::new(
+        "toggle-storms",
+        16,
+        "ports 1 and B with DDR = ff: 30,000 alternating DR writes with the state count advancing by g between them, g in {7, 8, 60, 66, 199, 200, 1000, 100000}, starting at state count 0 and just below a multiple of 2,000,000; then the other port is written once: every change is announced with the new value (the last announced value always equals the output), time stamps never go back",
+        move |ctx, chunk| {
+            let gaps = [7u32, 8, 60, 66, 199, 200, 1000, 100_000];
+            let g = gaps[(chunk % 8) as usize];
+            let p = if chunk < 8 { 1u8 } else { 11 };
+            let other = if p == 1 { 2u8 } else { 1 };
+            for start in [0u64, 1_999_000] {
+                let mut sys = PortSys::new();
+                let path = vec![PAct::Ddr(p, 0xff), PAct::Ddr(other, 0xff), PAct::Clock(start), PAct::Storm(p, g, 30_000), PAct::Dr(other, 0x3c), PAct::Dr(p, 0x00)];
+                for (k, a) in path.iter().enumerate() {
+                    ctx.st.cases += if let PAct::Storm(_, _, n) = a { *n as u64 } else { 1 };
+                    ctx.st.nontrivial += 1;
+                    if let Err(m) = sys.apply(a, &[p, other]) {
+                        report(ctx, &path[..=k], m);
+                        break;
                     }
                 }
             }
